@@ -4,7 +4,7 @@ import engine, ops, vlib
 
 OPS = ["ple", "pluq", "_ple_naive", "_pluq_naive", "_ple_russian", "_pluq_russian"]
 REC_OPS = ["ple", "pluq"]          # the routes that enter the block recursion of ple.c
-PROOFS = ["Properties_C03"]
+PROOFS = ["Properties_C03", "Properties_C03r"]
 
 
 def run(res, tier, seed):
@@ -20,7 +20,8 @@ def run(res, tier, seed):
                        "ple_ok / pluq_ok (PLEProofs.v) on the implementation's (A', P, Q, r); Tier B: (A', P, Q, r) bit-identical with "
                        "ple_rec over ple_naive at the build's PLE cut-off (pluq_rec, pluq_naive, pluq_of_ple).  distinct by (route, "
                        "shape class, rank-profile style, k / cutoff, regime, build)")
-    ops.proof_part(res, PROOFS[0])
+    for pf in PROOFS:
+        ops.proof_part(res, pf)
     quick = tier == "quick"
     T = {n: ops.Tiers(res, "C03", ops.VARIANTS[n](vlib)) for n in ("host", "small", "stress")}
     res.cov["configurations"] = [dict(t.variant) for t in T.values()]
